@@ -85,11 +85,21 @@ func (cd *CondDef) String() string {
 	case "in":
 		return fmt.Sprintf("%s in ('%s')", cd.Key, strings.Join(cd.Vals, "','"))
 	case "not":
+		if cd.L.Op == "and" || cd.L.Op == "or" {
+			return "not {" + cd.L.String() + "}"
+		}
 		return "not " + cd.L.String()
 	case "par":
 		return "(" + cd.L.String() + ")"
 	default:
-		return cd.L.String() + " " + cd.Op + " " + cd.R.String()
+		// {..} shows the tree (the statement has parentheses only where a `par` node is)
+		side := func(x *CondDef) string {
+			if x.Op == "and" || x.Op == "or" {
+				return "{" + x.String() + "}"
+			}
+			return x.String()
+		}
+		return side(cd.L) + " " + cd.Op + " " + side(cd.R)
 	}
 }
 
